@@ -60,10 +60,14 @@ def layer_case(kind, k, dirty, inplace, T=7):
     for _ in range(max(1, dirty)):  # lazily shaped recorders must have seen one step
         b((torch.rand(2, 3, generator=g2) < 0.5).float())
     inp = dict(kind=kind, k=k, dirty=dirty, inplace=inplace)
+    if kind == "recurrent" and k >= 1 and not any(key.endswith("feedback_spikes") for key in sd):
+        return {"what": "C12/recurrent_state_missing_from_state_dict", "input": inp, "expected": "feedback_spikes saved once the layer has run", "actual": sorted(sd)[:8]}
     try:
         b.load_state_dict(sd)
     except Exception as e:
         return {"what": "C12/load_exception", "input": inp, "expected": "ok", "actual": f"{type(e).__name__}: {str(e)[:200]}"}
+    if kind == "recurrent" and k >= 1 and not torch.equal(b.feedback_spikes, roundtrip(a.state_dict()) and sd[[key for key in sd if key.endswith("feedback_spikes")][0]]):
+        return {"what": "C12/recurrent_state_not_restored", "input": inp, "expected": "feedback spikes of the checkpoint", "actual": "the target's own"}
     for t in range(k, T):
         o = b(xs[t])
         ref = outs[t]
